@@ -266,3 +266,20 @@ Example C10_folding_example :
               {| hl_name := str "UPGRADE"%string; hl_lead := []; hl_value := str "web"%string; hl_trail := [];
                  hl_cont := [([SP; HT], str "socket"%string)] |}.
 Proof. exact folding_example. Qed.
+
+(* ... and repeated: for a reply whose headers may repeat, resp_get returns for every name the fragments of all headers of
+   that name (up to letter case) in arrival order, later ones behind a comma -- `collect` -- stripped *)
+Theorem C10_repeated_headers : forall r, wf_reply_dup r ->
+  r_status (parse_response (render_reply r)) = Some (rp_code r) /\
+  forall q, resp_get (parse_response (render_reply r)) q =
+            match collect (lower_s q) (rp_lines r) None with Some fr => Some (strip (concat fr)) | None => None end.
+Proof. exact parse_rendered_reply_dup. Qed.
+Print Assumptions C10_repeated_headers.
+Example C10_repeated_header_example :
+  let a := {| hl_name := str "Sec-WebSocket-Extensions"%string; hl_lead := [SP]; hl_value := str "foo"%string; hl_trail := []; hl_cont := [] |} in
+  let b := {| hl_name := str "sec-websocket-extensions"%string; hl_lead := []; hl_value := str "permessage-deflate"%string; hl_trail := [SP]; hl_cont := [] |} in
+  match collect (str "sec-websocket-extensions"%string) [a; b] None with
+  | Some fr => strip (concat fr) = str "foo,permessage-deflate"%string
+  | None => False
+  end.
+Proof. exact repeated_header_example. Qed.
